@@ -259,8 +259,8 @@ class SMP_Command:
         if fields := getattr(self, 'fields', None):
             result += ':\n' + HCI_Object.format_fields(self.__dict__, fields, '  ')
         else:
-            if len(self.pdu) > 1:
-                result += f': {self.pdu.hex()}'
+            if self.payload:
+                result += f': {self.payload.hex()}'
         return result
 
 
